@@ -74,7 +74,12 @@ PROP = {
                        # production sites that parse a snapshot and where the option is passed (sendRdb takes
                        # ro.rdbParseOptions())
                        "idle_consumer_option_sites": ["syncer/output.go:rdbParseOptions", "cmd/rdb.go:Print"],
-                       "rdb_parse_sites": ["syncer/output.go:sendRdb:ParseRdb", "cmd/rdb.go:Print:ParseRdb"]},
+                       "rdb_parse_sites": ["syncer/output.go:sendRdb:ParseRdb", "cmd/rdb.go:Print:ParseRdb"],
+                       # dimension audit: process-global state of the anchor packages; nothing writes it after
+                       # initialisation (the models read these as constants; maxBinEntryBuffer only through the test hook)
+                       "c03_pkg_vars": ["pkg/digest:crc16tab", "pkg/digest:crc64_table", "pkg/rdb:RdbVersion",
+                                        "pkg/rdb:maxBinEntryBuffer", "pkg/rdb:rdbObjectMap", "pkg/rdbrestore:ErrRestoreRdb"],
+                       "c03_pkg_var_writes": []},
     "harness": [
         {"name": "C03dec", "pkg": "./pkg/rdb/", "test": "TestVerifC03Dec"},
         {"name": "C03replay", "pkg": "./syncer/", "test": "TestVerifC03Replay"},
@@ -84,10 +89,10 @@ PROP = {
             "pkg/vfc03; the Lean encoder (specification) turns each description into snapshot bytes (drv_C03 `gen`), the Go "
             "harness feeds them to the real code. C03dec: real ParseRdb/Next/ReadBuffer/ExecCmd/CreateValueDump vs the Lean "
             "decoder model per entry (db,key,type,expiry,idle,freq,first/split,payload bytes,expanded commands) on corpus + "
-            "22 Redis-produced fixture blobs of loader_test.go x 3 configs + 250 (quick) / 6000 (thorough) generated files "
+            "22 Redis-produced fixture blobs of loader_test.go x 3 configs + 250 (quick) / 5200 (thorough) generated files "
             "(RDB versions 1..13, thresholds 1/5/20/100/16MiB) + truncated/byte-altered variants; digest.New and "
             "CreateValueDump vs an independent bitwise CRC64. C03replay: real RedisOutput.sendRdb (ParseRdb -> fan-out -> "
-            "rdbReplay -> RdbReplay.Replay) in a synctest bubble against the in-process target double, 220 / 5000 files x "
+            "rdbReplay -> RdbReplay.Replay) in a synctest bubble against the in-process target double, 220 / 4400 files x "
             "random config (restore on/off, MaxProtoBulkLen 30/120/512MiB, parallel 1-4, TargetDb, TargetDbMap, target "
             "version 4-8, threshold, pre-existing keys of other type/with TTL, OUTPUT FILTER: multi-DB datasets whose keys - "
             "preferably the first key of a DB - carry the reserved prefixes redis-gunyu-checkpoint* / /redis-gunyu*, or are hit "
@@ -140,6 +145,22 @@ PROP = {
             "tool's own namespaces: part of the filterKey parameter the driver builds (Drive/C03.lean targetReserved) and of the "
             "monitor's independent decision (vfc03.FilterSpec.RHT); a consumer "
             "without pending entries missing on a 6.2+ target is the violation stream-idle-consumer-missing. "
+            "Dimension audit (session 5, last round): one counter per option value that selects a branch (cfg_*: chunk threshold, "
+            "target version 4 / 5 / 6.0 / 6.2 / 7.0 / 7.2 / 8.0 / 8.2 written as M, M.m, M.m.0, M.m.14, functionExists, module aux "
+            "policy, restore on/off, MaxProtoBulkLen, parallel, replaceHashTag, TargetDb, TargetDbMap, each filter list; keyExists is "
+            "fixed to replace and the target to stand-alone: declared). Forced degenerate-but-legal shapes, one per third file in turn "
+            "(dim_forced_*): the empty key as first key of a database, an empty string value, database numbers 16 .. 100000 in every "
+            "length form, a selected-and-sized but EMPTY database between used ones, FUNCTION LIBRARIES (type 245, never generated "
+            "before: before the first database and between keys; monitor function-libraries: one FUNCTION RESTORE with the policy's "
+            "option word per library on a 7+ target, none below), LFU and LRU info on one key. Expiry DURING the replay: keys that "
+            "expire 1..40 ms after the start and, as first key of every fourth file, a hash table of >= 6 pairs under chunk threshold "
+            "1 / 20 / 100 that expires 3..12 requests in - between two of its bins when the clock advances per request; the target "
+            "double now removes a key whose expiry (set by a request of this replay) its clock has reached when the next request "
+            "touches it, the monitor demands that such a key is gone or left expired (expired-key-survives otherwise; counters "
+            "keys_expiring_during_the_replay, keys_removed_by_the_target_clock_reaching_their_expiry). Only RdbTypeHash is ever "
+            "split by the loader (source: the one use of maxBinEntryBuffer), so `split x every collection type` has one member. "
+            "Source facts c03_pkg_vars / c03_pkg_var_writes: the package-level variables of pkg/rdb, rdbrestore, redis/types, digest "
+            "and every assignment to one outside its declaration (none). "
             "distinct_nontrivial = (kind, value-shape) classes seen",
     "trusted": [
         "RDB on-disk encodings as transcribed in Model/Rdb/{Str,Ziplist,Listpack,Stream,Enc}.lean (encoders = specification: "
